@@ -58,12 +58,15 @@ def everyOther : List Posting → List Posting
   | _ :: b :: rest => b :: everyOther rest
   | _ => []
 
+/-- `strings.ReplaceAll(desc, "\"", "'")`: one ASCII byte replaced by another, character by character -/
+def descText (s : String) : String := String.ofList (s.toList.map (fun c => if c == '"' then '\'' else c))
+
 /-- `printTransaction` (the description's double quotes are printed as single quotes) -/
 def printTx (pad : Nat) (t : Transaction) : String :=
   (match t.targets with
    | some tg => "@performance(" ++ String.intercalate "," tg ++ ")\n"
    | none => "") ++
-  fmtDate t.date ++ " \"" ++ t.description.replace "\"" "'" ++ "\"\n" ++
+  fmtDate t.date ++ " \"" ++ descText t.description ++ "\"\n" ++
   String.join ((everyOther t.postings).map (fun p => printPosting pad p ++ "\n"))
 
 def printOpen (o : Open) : String := fmtDate o.date ++ " open " ++ o.account.name
